@@ -63,6 +63,41 @@ theorem eventually_answered (c : Cfg) (evs0 : List Ev) (sched : Nat → Ev) (a :
     ∃ n, a ∈ (sysAt c (sysRun c evs0) sched n).rob.delivered.map (·.rspTo) :=
   eventually_done c a (sysRun c evs0) sched hw hn hfair _ 0 (Win.of (sysRun_ok c evs0) hwin) (Nat.le_refl _)
 
+/-- **From the Top port to the requester.** Once `a`'s response has entered the Top port's
+    outgoing buffer, no event of any kind (flush and restart included) removes or overtakes it:
+    along any event list, either the requester has taken it, or its position in the buffer has
+    dropped by the number of `takeRsp` events — so it is handed over at the latest with the
+    `topOutCap`-th response the requester takes. -/
+theorem response_reaches_requester (c : Cfg) (evs0 evs : List Ev) (a : Nat)
+    (hdone : a ∈ (sysRun c evs0).rob.delivered.map (·.rspTo)) :
+    let σ := sysRun c evs0
+    let σ' := sysRun c (evs0 ++ evs)
+    (a ∈ σ'.out.map (·.rspTo) ∨ σ'.nu a + takeCount evs ≤ σ.nu a) ∧
+    (c.topOutCap ≤ takeCount evs → a ∈ σ'.out.map (·.rspTo)) := by
+  intro σ σ'
+  have hrun : σ' = evs.foldl (sysStep c) σ := by simp [σ, σ', sysRun, List.foldl_append]
+  have ok := sysRun_ok c evs0
+  have key := taken_fold c a evs σ ok hdone
+  rw [← hrun] at key
+  refine ⟨key, fun hcap => ?_⟩
+  rcases key with h | le
+  · exact h
+  · by_cases hn : a ∈ σ'.out.map (·.rspTo)
+    · exact hn
+    · exfalso
+      have ok' : σ'.Ok c := sysRun_ok c (evs0 ++ evs)
+      have d' : σ'.Done a := by rw [hrun]; exact done_fold c a evs σ ok hdone
+      have hpos := nu_pos c a σ' ok' d' hn
+      have h1 : σ.nu a ≤ σ.rob.topOut.length := by
+        unfold Sys.nu
+        have := lastPos_le [a] (σ.rob.topOut.map (·.rspTo))
+        simpa using this
+      have h2 : σ.rob.topOut.length ≤ c.topOutCap := SInv.topOutLe ok
+      omega
+
+example : 0 ∈ (sysRun demoCfg residueEvs).rob.delivered.map (·.rspTo) ∧ (sysRun demoCfg residueEvs).nu 0 = 1 ∧
+    (sysRun demoCfg (residueEvs ++ [.ctl ⟨false, true⟩, .tick, .takeRsp])).out.map (·.rspTo) = [0] := by decide
+
 /-- a fair schedule for the demo: answer, then tick forever -/
 def fairSched : Nat → Ev
   | 0 => .memAnswer 0 (.data [1])
